@@ -18,6 +18,8 @@ pub fn run(stim: &Value, rec: &Rec) {
         let (mut reporter, server) = tonic_health::server::health_reporter();
         let mut client = HealthClient::new(server);
         let mut streams: HashMap<u64, tonic::Streaming<tonic_health::pb::HealthCheckResponse>> = HashMap::new();
+        // parked watchers: a task that keeps awaiting the stream (wake-ups matter) and forwards what it gets
+        let mut parked: HashMap<u64, tokio::sync::mpsc::UnboundedReceiver<Value>> = HashMap::new();
         for (i, op) in stim["ops"].as_array().cloned().unwrap_or_default().iter().enumerate() {
             let s = op["s"].as_str().unwrap_or("").to_string();
             let w = op["w"].as_u64().unwrap_or(0);
@@ -32,6 +34,22 @@ pub fn run(stim: &Value, rec: &Rec) {
                     Ok(r) => { streams.insert(w, r.into_inner()); json!({"r":"subscribed","code":0}) }
                     Err(e) => json!({"r":"err","code":e.code() as i32}),
                 },
+                "park" => match streams.remove(&w) {
+                    None => json!({"r":"nostream"}),
+                    Some(mut stm) => {
+                        let (tx, rx) = tokio::sync::mpsc::unbounded_channel();
+                        tokio::spawn(async move { loop { match stm.message().await {
+                            Ok(Some(m)) => { if tx.send(json!({"r":"item","status":m.status})).is_err() { break; } }
+                            Ok(None) => { let _ = tx.send(json!({"r":"end","status":-1})); break; }
+                            Err(e) => { let _ = tx.send(json!({"r":"err","code":e.code() as i32,"status":-1})); break; } } } });
+                        parked.insert(w, rx);
+                        json!({"r":"parked"})
+                    }
+                },
+                "next" if parked.contains_key(&w) => {
+                    // what the parked watcher has received by now (quiescent point); nothing = still waiting
+                    match parked.get_mut(&w).unwrap().try_recv() { Ok(v) => v, Err(tokio::sync::mpsc::error::TryRecvError::Empty) => json!({"r":"pending","status":-1}), Err(_) => json!({"r":"end","status":-1}) }
+                }
                 "next" => match streams.get_mut(&w) {
                     None => json!({"r":"nostream"}),
                     Some(stm) => match tokio::time::timeout(Duration::from_millis(1), stm.message()).await {
